@@ -20,7 +20,7 @@ fn space_for(tier: Tier) -> (Space, usize) {
             s.ast_range("ALT", 1, 4, 64, 4);
             // back-references: membership decided by exhaustive path exploration
             s.ast_range("G", 1, 6, 256, 3).ast_range("BR", 1, 3, 64, 3);
-            s.ast_range("FX", 1, 4, 64, 6);
+            s.ast_range("FX", 1, 4, 64, 6).ast_range("FXA", 1, 4, 64, 6);
             (s, 3)
         }
         Tier::Thorough => {
@@ -31,7 +31,7 @@ fn space_for(tier: Tier) -> (Space, usize) {
             s.ast_range("LP", 1, 4, 64, 6);
             s.ast_range("ALT", 1, 4, 64, 4);
             s.ast_range("G", 1, 6, 256, 4).ast_range("BR", 1, 4, 64, 4);
-            s.ast_range("FX", 1, 4, 64, 6);
+            s.ast_range("FX", 1, 4, 64, 6).ast_range("FXA", 1, 4, 64, 6);
             (s, 4)
         }
     }
